@@ -165,15 +165,27 @@ fn gen_keys(s: &mut Src) -> (Option<Vec<u8>>, Vec<Vec<u8>>) {
 
 pub fn decode(s: &mut Src) -> Case {
     let (exported, keys) = gen_keys(s);
-    let n = 1 + s.below(12);
+    // three regimes: short histories of short messages, long histories (sequence numbers beyond one byte, several
+    // kilobytes of keystream), and histories containing very long messages (cipher block boundaries)
+    let regime = s.below(96);
+    let n = match regime {
+        0 => 250 + s.below(400),
+        _ => 1 + s.below(12),
+    };
     let mut history = Vec::new();
-    for _ in 0..n {
-        let to_server = s.bool();
-        let len = match s.below(6) {
-            0 => 0,
-            1 => 1,
-            2 => 300,
-            _ => s.below(301),
+    for i in 0..n {
+        let to_server = if regime == 0 { s.u8() & 3 != 0 } else { s.bool() };
+        let len = if regime == 0 {
+            (i * 7 + 3) % 11
+        } else if regime <= 2 {
+            s.pick(&[0usize, 255, 256, 257, 1023, 1024, 1025, 4095, 4096, 4097, 5000, 8191, 8192, 8193, 9000, 16385, 70_000])
+        } else {
+            match s.below(6) {
+                0 => 0,
+                1 => 1,
+                2 => 300,
+                _ => s.below(301),
+            }
         };
         history.push((to_server, s.fill(len)));
     }
@@ -236,6 +248,14 @@ pub fn check(rep: &Report) {
     let nh = rep.tier.n(24, 400) as usize;
     rep.enumerate("bitflips-exhaustive", true, move |p, n| exhaustive_tamper(nh, p, n), run);
     rep.random("histories", rep.tier.n(400_000, 8_000_000), 96, decode, run);
+    // deterministic long histories and long messages (one context each)
+    let mut long = Vec::new();
+    for k in 0..4u32 {
+        let exported = engine::src::expand(0xABCD + k, 16);
+        long.push(Case { exported: Some(exported.clone()), keys: vec![], history: (0..700).map(|i| (i % 3 != 2, engine::src::expand(i as u32 + 1, (i % 5) as usize))).collect(), tamper: None });
+        long.push(Case { exported: Some(exported), keys: vec![], history: [10usize, 4096, 4097, 3, 70_000, 0, 9000, 1].iter().enumerate().map(|(i, l)| ((i + k as usize) % 2 == 0, engine::src::expand(i as u32 + 9, *l))).collect(), tamper: None });
+    }
+    rep.list("long-histories", long, run);
     rep.require("histories", "multi-wrap", 1000);
     rep.require("histories", "multi-unwrap", 1000);
     rep.require("histories", "tamper", 1000);
